@@ -4,6 +4,7 @@ mod ad;
 mod df;
 mod es;
 mod replay;
+mod rf;
 mod t1;
 mod util;
 use std::io::Write as _;
@@ -36,7 +37,7 @@ macro_rules! walk_sizes {
 
 /// replay of scenario kinds added by later modules
 pub fn replay_other(line: &str, w: &mut impl std::io::Write) -> bool {
-    ad::replay_line(line, w)
+    ad::replay_line(line, w) || rf::replay_line(line, w)
 }
 
 fn main() {
@@ -88,6 +89,7 @@ fn main() {
         }
         "df" => df::run(thorough, seed, &mut w),
         "chain" | "take" => ad::run(&mode, thorough, seed, &mut w),
+        "rf" | "rfe" => rf::run(&mode, thorough, seed, &mut w),
         "es" => es::run(thorough, seed, &mut w),
         "replay" => replay::run(&mut w),
         _ => {
